@@ -55,6 +55,57 @@ def display_strings(prog, crate_name, type_suffix):
     return out
 
 
+def pointer_width_context(res, prog, c, rid):
+    """set_print_context stores this state's pointer width unconditionally into the thread-local that Address's
+    Display reads, and is its only writer (shared by C15.3b and C13.6: a width left by an earlier report on the same
+    thread would make identical inputs print differently)"""
+    # ---- C15.3b set_print_context overwrites the thread-local width with *this* state's width, unconditionally,
+    #      and Address's Display reads that same thread-local; nothing else writes it
+    res.rule(rid, 0, floor=3, note='set_print_context stores Some(self.system_info.cpu.pointer_width()) unconditionally; Address::fmt reads it; no other writer')
+    spc = c.fn('minidump_processor::process_state::ProcessState::set_print_context')
+    cl = c.fn('minidump_processor::process_state::ProcessState::set_print_context::{closure#0}')
+    if spc is None or cl is None:
+        res.error(rid, 'set_print_context / its closure not found')
+    else:
+        res.rule(rid, 1)
+        withs = [t for b, t in spc.calls() if (spc.callee(t) or '').endswith('LocalKey::with') and 'SERIALIZATION_CONTEXT' in show(spc.expand(spc.call_tree(t)))]
+        if len(withs) != 1:
+            res.violation(rid, rid + '|with', spc, spc.line, 'set_print_context does not enter SERIALIZATION_CONTEXT.with(..) exactly once')
+        stores = [(b, i, pl, rv) for (b, i, pl, rv) in part_assigns(cl, 'pointer_width')]
+        ok = len(stores) == 1
+        if ok:
+            b, i, pl, rv = stores[0]
+            e = show(cl.expand(rv))
+            ok = e == '(adt std::option::Option::Some (minidump::system_info::Cpu::pointer_width self.system_info.cpu))'
+            bdefs = [d for d in cl.defs.get(cl.blocks[b]['s'][i]['lhs']['l'], []) if d['kind'] == 'call']
+            bt = show(cl.expand(cl.call_tree(bdefs[0]['term']))) if len(bdefs) == 1 else ''
+            borrows = [t for _, t in cl.calls() if (cl.callee(t) or '').endswith('RefCell::borrow_mut') and show(cl.expand(cl.operand_tree(t['args'][0]))) in ('ctx', '(* ctx)')]
+            ok = ok and 'deref_mut' in bt and len(borrows) == 1
+            # on every path through the closure
+            exits = [x for x in cl.reach if cl.blocks[x]['t']['k'] == 'return']
+            ok = ok and all(cl.dominates(b, x) for x in exits)
+        if not ok:
+            res.violation(rid, rid + '|store', cl, cl.line, 'set_print_context does not unconditionally store Some(self.system_info.cpu.pointer_width()) into the thread-local context: %s' % '; '.join(show(cl.expand(rv))[:120] for (_, _, _, rv) in stores) or 'no store')
+        for b, t in cl.calls():
+            n = cl.callee(t) or ''
+            if re.search(r'Option::(get_or_insert|get_or_insert_with|insert|replace|take|or_insert)', n):
+                res.violation(rid, rid + '|conditional|%s' % n.split('::')[-1], cl, t.get('line'), 'the thread-local pointer width is updated through %s (keeps a value left by an earlier report on this thread)' % n)
+    writers = 0
+    for g in c.fns:
+        if g.mac and g.mac.startswith('derive('):
+            continue
+        for (b, i, pl, rv) in part_assigns(g, 'pointer_width'):
+            if 'SerializationContext' in (g.local_ty(g.blocks[b]['s'][i]['lhs']['l']) or ''):
+                writers += 1
+                if g is not cl:
+                    res.violation(rid, rid + '|writer|%s' % g.qual, g, g.line, 'the thread-local pointer width is also written by %s' % g.qual)
+    res.rule(rid, max(writers, 0))
+    disp = [g for g in c.fns if re.search(r'process_state::Address as std::fmt::Display>::fmt(::\{closure#0\})?$', g.qual)]
+    res.rule(rid, len(disp))
+    if not any('SERIALIZATION_CONTEXT' in show(g.expand(g.call_tree(t))) for g in disp for b, t in g.calls()):
+        res.violation(rid, rid + '|reader', None, None, 'Address::fmt does not read SERIALIZATION_CONTEXT', file='minidump-processor/src/process_state.rs')
+
+
 def run(tier, t0):
     res = harness.Result(PID)
     prog = program()
@@ -156,51 +207,7 @@ def run(tier, t0):
         work = [b for b, t in g.calls() if g.callee(t) in ('serde_json::Map::new', 'serde_json::to_value', 'std::io::Write::write_fmt') or g.callee_decl(t).endswith('Write::write_fmt')]
         if not sets or not all(any(g.dominates(s, w) for s in sets) for w in work):
             res.violation('C15.3', 'C15.3|%s' % path.split('::')[-1], g, g.line, 'set_print_context() does not dominate the first formatting of an address')
-    # ---- C15.3b set_print_context overwrites the thread-local width with *this* state's width, unconditionally,
-    #      and Address's Display reads that same thread-local; nothing else writes it
-    res.rule('C15.3b', 0, floor=3, note='set_print_context stores Some(self.system_info.cpu.pointer_width()) unconditionally; Address::fmt reads it; no other writer')
-    spc = c.fn('minidump_processor::process_state::ProcessState::set_print_context')
-    cl = c.fn('minidump_processor::process_state::ProcessState::set_print_context::{closure#0}')
-    if spc is None or cl is None:
-        res.error('C15.3b', 'set_print_context / its closure not found')
-    else:
-        res.rule('C15.3b', 1)
-        withs = [t for b, t in spc.calls() if (spc.callee(t) or '').endswith('LocalKey::with') and 'SERIALIZATION_CONTEXT' in show(spc.expand(spc.call_tree(t)))]
-        if len(withs) != 1:
-            res.violation('C15.3b', 'C15.3b|with', spc, spc.line, 'set_print_context does not enter SERIALIZATION_CONTEXT.with(..) exactly once')
-        stores = [(b, i, pl, rv) for (b, i, pl, rv) in part_assigns(cl, 'pointer_width')]
-        ok = len(stores) == 1
-        if ok:
-            b, i, pl, rv = stores[0]
-            e = show(cl.expand(rv))
-            ok = e == '(adt std::option::Option::Some (minidump::system_info::Cpu::pointer_width self.system_info.cpu))'
-            bdefs = [d for d in cl.defs.get(cl.blocks[b]['s'][i]['lhs']['l'], []) if d['kind'] == 'call']
-            bt = show(cl.expand(cl.call_tree(bdefs[0]['term']))) if len(bdefs) == 1 else ''
-            borrows = [t for _, t in cl.calls() if (cl.callee(t) or '').endswith('RefCell::borrow_mut') and show(cl.expand(cl.operand_tree(t['args'][0]))) in ('ctx', '(* ctx)')]
-            ok = ok and 'deref_mut' in bt and len(borrows) == 1
-            # on every path through the closure
-            exits = [x for x in cl.reach if cl.blocks[x]['t']['k'] == 'return']
-            ok = ok and all(cl.dominates(b, x) for x in exits)
-        if not ok:
-            res.violation('C15.3b', 'C15.3b|store', cl, cl.line, 'set_print_context does not unconditionally store Some(self.system_info.cpu.pointer_width()) into the thread-local context: %s' % '; '.join(show(cl.expand(rv))[:120] for (_, _, _, rv) in stores) or 'no store')
-        for b, t in cl.calls():
-            n = cl.callee(t) or ''
-            if re.search(r'Option::(get_or_insert|get_or_insert_with|insert|replace|take|or_insert)', n):
-                res.violation('C15.3b', 'C15.3b|conditional|%s' % n.split('::')[-1], cl, t.get('line'), 'the thread-local pointer width is updated through %s (keeps a value left by an earlier report on this thread)' % n)
-    writers = 0
-    for g in c.fns:
-        if g.mac and g.mac.startswith('derive('):
-            continue
-        for (b, i, pl, rv) in part_assigns(g, 'pointer_width'):
-            if 'SerializationContext' in (g.local_ty(g.blocks[b]['s'][i]['lhs']['l']) or ''):
-                writers += 1
-                if g is not cl:
-                    res.violation('C15.3b', 'C15.3b|writer|%s' % g.qual, g, g.line, 'the thread-local pointer width is also written by %s' % g.qual)
-    res.rule('C15.3b', max(writers, 0))
-    disp = [g for g in c.fns if re.search(r'process_state::Address as std::fmt::Display>::fmt(::\{closure#0\})?$', g.qual)]
-    res.rule('C15.3b', len(disp))
-    if not any('SERIALIZATION_CONTEXT' in show(g.expand(g.call_tree(t))) for g in disp for b, t in g.calls()):
-        res.violation('C15.3b', 'C15.3b|reader', None, None, 'Address::fmt does not read SERIALIZATION_CONTEXT', file='minidump-processor/src/process_state.rs')
+    pointer_width_context(res, prog, c, 'C15.3b')
     # ---- C15.6 every JSON array mirrors the whole collection it reports: it is collect(map(<iteration over the
     #      collection>, closure)), optionally with enumerate(); no adapter that drops, truncates or reorders items
     res.rule('C15.6', 0, floor=10, note='JSON arrays are maps over whole collections: no take / skip / filter / step_by / rev / chain in the chains that build them')
